@@ -169,7 +169,7 @@ def traceB_parse(n_quick, n_thorough, props):
         pp, pq, npaths, npairs = vlib.extract_corpus(sdir)
         gj = os.path.join(sdir, 'grammar.json')
         summ, rec, gerr = vlib.run_record(sdir, harness, ['gen-parse', '-seed', str(vlib.SEED), '-n', str(n), '-corpus', pp, '-grammar', gj], props, 'recparse', pid)
-        st, rejected, nrec = vlib.validate_trace(sdir, 'Trace_Parse', rec, 'trace-parse')
+        st, rejected, nrec = vlib.validate_trace(sdir, 'Trace_Parse', rec, 'trace-parse', timeout=1800 if tier == 'quick' else 10800)
         viol, hits = [], []
         for v in summ.get('violations') or []:
             if v['property'] == pid:
@@ -210,7 +210,7 @@ def traceB_eval(n_quick, n_thorough, props, attribute):
         n = n_quick if tier == 'quick' else n_thorough
         pp, pq, npaths, npairs = vlib.extract_corpus(sdir)
         summ, rec, gerr = vlib.run_record(sdir, harness, ['gen-eval', '-seed', str(vlib.SEED), '-n', str(n), '-corpus', pq], props, 'receval', pid)
-        st, rejected, nrec = vlib.validate_trace(sdir, 'Trace_Eval', rec, 'trace-eval')
+        st, rejected, nrec = vlib.validate_trace(sdir, 'Trace_Eval', rec, 'trace-eval', timeout=1800 if tier == 'quick' else 10800)
         viol, hits = [], []
         for v in summ.get('violations') or []:
             if v['property'] == pid:
